@@ -55,6 +55,10 @@ var plan = map[string]rules{
 	"honnef.co/go/tools/go/ir": {conc: true, maps: true, procs: true, regist: []string{"task"},
 		yieldAt: []string{"builder.buildFunction", "builder.stmt", "builder.buildParamsOnly", "builder.buildWrapper", "builder.buildBound", "builder.buildInstantiationWrapper", "builder.buildFromSyntax", "builder.buildYieldFunc", "builder.buildPackageInit", "Function.finishBody", "Function.done", "Function.startBody"}},
 	"honnef.co/go/tools/unused":            {maps: true},
+	// ParseDirectives ranges over an ast.CommentMap: the order of the
+	// directives ends up in the cached results, hence in their content hash
+	// and file name
+	"honnef.co/go/tools/analysis/lint": {maps: true},
 }
 
 var simosNames = map[string]bool{
